@@ -14,15 +14,15 @@ def index_cfg(maxlen, maxtable, method_sets=(("GET",),), req_methods=("GET",), e
     return core.cfg(constants=c, invariants=["Agree", "Sound", "Complete", "StaticWins"] + (["Emit"] if emit else []))
 
 
-def pool_file(pool, chars=ALPHA5):
+def pool_file(pool, chars=ALPHA5, extra_paths=()):
     pd = os.path.join(core.scratch(), "PoolDef.tla")
-    open(pd, "w").write(P.pooldef(pool, chars=chars))
+    open(pd, "w").write(P.pooldef(pool, chars=chars, extra_paths=[tuple(p) for p in extra_paths]))
     return pd
 
 
 def run_instance(chk, name, pool, maxlen, maxtable, chars=ALPHA5, method_sets=(("GET",),), req_methods=("GET",),
-                 timeout=1800, family="match", only=None, harness_env=None):
-    pd = pool_file(pool, chars)
+                 timeout=1800, family="match", only=None, harness_env=None, extra_paths=()):
+    pd = pool_file(pool, chars, extra_paths)
     out = os.path.join(core.scratch(), "match-%s.ndjson" % name)
     import json
     n = [0]
